@@ -560,4 +560,17 @@ example : proposalDataBudget wState (evByteSize []) = some 22018921 ∧
 example : HeaderBounds (makeHeader wEnv wState 2 [] gCommit [] (wAddr 2)) := by
   constructor <;> decide
 
+/-- `single_content_rejected`: an accepted block and a different block with the same header -/
+example : let b := makeBlock wEnv wState 2 [] gCommit [] (wAddr 2)
+    let b' := { b with txs := [[1]] }
+    validateBlock wEnv wState b = .ok () ∧ b'.header = b.header ∧ b' ≠ b := by
+  refine ⟨by rfl, rfl, by decide⟩
+
+/-- `content_bound_by_header`: two accepted blocks under the code's hash functions (over a
+constant `H`, which has fixed output length 32) -/
+example : let env := concreteEnv (fun _ => wHash) (fun _ _ _ _ _ => none) (fun _ _ => true)
+    let b := makeBlock env wState 2 [] gCommit [] (wAddr 2)
+    (∀ x : Bytes, ((fun (_ : Bytes) => wHash) x).length = 32) ∧ validateBlock env wState b = .ok () := by
+  refine ⟨fun _ => rfl, by rfl⟩
+
 end Tmv.Props.C06
